@@ -129,39 +129,46 @@ def job_placement(tier, rng):
 # ---------------------------------------------------------------- (ii) parameter counts
 def job_param_counts(tier, rng):
     M = numqi.manifold
-    bad = {}
+    bad = {}; other = {}
     n = 0
     for d in range(2, 9):
         for real in (True, False):
             dt = torch.float64 if real else torch.complex128
             checks = []
-            checks += [('Sphere.quotient', M.Sphere(d, method='quotient', dtype=dt).theta.shape[-1], dim_manifold('sphere', d, real=real) + 1)]
-            checks += [('Sphere.coordinate', M.Sphere(d, method='coordinate', dtype=dt).theta.shape[-1], dim_manifold('sphere', d, real=real))]
-            checks += [('Ball', M.Ball(d, dtype=dt).theta.shape[-1], dim_manifold('ball', d, real=real))]
+            checks += [('Sphere.quotient', M.Sphere(d, method='quotient', dtype=dt).theta.shape[-1], dim_manifold('sphere', d, real=real) + 1, dim_manifold('sphere', d, real=real))]
+            checks += [('Sphere.coordinate', M.Sphere(d, method='coordinate', dtype=dt).theta.shape[-1], dim_manifold('sphere', d, real=real), dim_manifold('sphere', d, real=real))]
+            checks += [('Ball', M.Ball(d, dtype=dt).theta.shape[-1], dim_manifold('ball', d, real=real), dim_manifold('ball', d, real=real))]
             if real:
-                checks += [('DiscreteProbability.sphere', M.DiscreteProbability(d, method='sphere').theta.shape[-1], d - 1 + 1), ('DiscreteProbability.softmax', M.DiscreteProbability(d, method='softmax').theta.shape[-1], d - 1 + 1)]
+                checks += [('DiscreteProbability.sphere', M.DiscreteProbability(d, method='sphere').theta.shape[-1], d - 1 + 1, d - 1), ('DiscreteProbability.softmax', M.DiscreteProbability(d, method='softmax').theta.shape[-1], d - 1 + 1, d - 1)]
             for meth in ('exp', 'cayley'):
-                checks += [(f'SpecialOrthogonal.{meth}', M.SpecialOrthogonal(d, method=meth, dtype=dt).theta.shape[-1], dim_manifold('so', d, real=real))]
+                checks += [(f'SpecialOrthogonal.{meth}', M.SpecialOrthogonal(d, method=meth, dtype=dt).theta.shape[-1], dim_manifold('so', d, real=real), dim_manifold('so', d, real=real))]
             for t0, n1 in itertools.product((False, True), repeat=2):
-                checks += [(f'SymmetricMatrix[tr0={t0},n1={n1}]', M.SymmetricMatrix(d, is_trace0=t0, is_norm1=n1, dtype=dt).theta.shape[-1], dim_manifold('sym', d, real=real, tr0=t0) )]   # norm1 is a scale gauge
+                checks += [(f'SymmetricMatrix[tr0={t0},n1={n1}]', M.SymmetricMatrix(d, is_trace0=t0, is_norm1=n1, dtype=dt).theta.shape[-1], dim_manifold('sym', d, real=real, tr0=t0), dim_manifold('sym', d, real=real, tr0=t0) - (1 if n1 else 0))]   # norm1 is a scale gauge
             for r in range(1, d + 1):
-                checks += [(f'Trace1PSD.cholesky[r={r}]', M.Trace1PSD(d, rank=r, method='cholesky', dtype=dt).theta.shape[-1], dim_manifold('psd', d, r, real) + 1)]
-                checks += [(f'Trace1PSD.ensemble[r={r}]', M.Trace1PSD(d, rank=r, method='ensemble', dtype=dt).theta.shape[-1], r + r * (d if real else 2 * d))]
+                checks += [(f'Trace1PSD.cholesky[r={r}]', M.Trace1PSD(d, rank=r, method='cholesky', dtype=dt).theta.shape[-1], dim_manifold('psd', d, r, real) + 1, dim_manifold('psd', d, r, real))]
+                checks += [(f'Trace1PSD.ensemble[r={r}]', M.Trace1PSD(d, rank=r, method='ensemble', dtype=dt).theta.shape[-1], r + r * (d if real else 2 * d), dim_manifold('psd', d, r, real))]
                 sd = dim_manifold('stiefel', d, r, real)
-                checks += [(f'Stiefel.qr[r={r}]', M.Stiefel(d, r, method='qr', dtype=dt).theta.shape[-1], d * r * (1 if real else 2)), (f'Stiefel.polar[r={r}]', M.Stiefel(d, r, method='polar', dtype=dt).theta.shape[-1], d * r * (1 if real else 2))]
-                checks += [(f'Stiefel.choleskyL[r={r}]', M.Stiefel(d, r, method='choleskyL', dtype=dt).theta.shape[-1], (d * r - r * (r + 1) // 2) * (1 if real else 2))]
-                checks += [(f'Stiefel.euler[r={r}]', M.Stiefel(d, r, method='euler', dtype=dt).theta.shape[-1], sd if real else sd - r), (f'Stiefel.so-exp[r={r}]', M.Stiefel(d, r, method='so-exp', dtype=dt).theta.shape[-1], dim_manifold('so', d, real=real))]
+                checks += [(f'Stiefel.qr[r={r}]', M.Stiefel(d, r, method='qr', dtype=dt).theta.shape[-1], d * r * (1 if real else 2), sd), (f'Stiefel.polar[r={r}]', M.Stiefel(d, r, method='polar', dtype=dt).theta.shape[-1], d * r * (1 if real else 2), sd)]
+                checks += [(f'Stiefel.choleskyL[r={r}]', M.Stiefel(d, r, method='choleskyL', dtype=dt).theta.shape[-1], (d * r - r * (r + 1) // 2) * (1 if real else 2), (d * r - r * (r + 1) // 2) * (1 if real else 2))]
+                checks += [(f'Stiefel.euler[r={r}]', M.Stiefel(d, r, method='euler', dtype=dt).theta.shape[-1], sd if real else sd - r, sd if real else sd - r), (f'Stiefel.so-exp[r={r}]', M.Stiefel(d, r, method='so-exp', dtype=dt).theta.shape[-1], dim_manifold('so', d, real=real), sd)]
                 if not real:
-                    checks += [(f'Stiefel.euler+phase[r={r}]', M.Stiefel(d, r, method='euler', euler_with_phase=True, dtype=dt).theta.shape[-1], sd)]
-            for name, got, want in checks:
+                    checks += [(f'Stiefel.euler+phase[r={r}]', M.Stiefel(d, r, method='euler', euler_with_phase=True, dtype=dt).theta.shape[-1], sd, sd)]
+            for name, got, want, mdim in checks:
                 n += 1
                 if got != want:
-                    bad.setdefault(name, dict(cls=name, dim=d, real=real, parameters=int(got), expected=int(want)))
+                    # fewer parameters than the dimension of the image the chart is documented to cover: the differential cannot have that rank (violation, no Jacobian needed);
+                    # a different but sufficient number (another gauge) is a different parametrisation: nothing claimed here, the Jacobian jobs decide
+                    (bad if got < mdim else other).setdefault(name, dict(cls=name, dim=d, real=real, parameters=int(got), expected=int(want), image_dimension=int(mdim)))
     names = sorted({c.split('[')[0] for c in ['Sphere.quotient', 'Sphere.coordinate', 'Ball', 'DiscreteProbability.sphere', 'DiscreteProbability.softmax', 'SpecialOrthogonal.exp', 'SpecialOrthogonal.cayley',
                                                 'SymmetricMatrix', 'Trace1PSD.cholesky', 'Trace1PSD.ensemble', 'Stiefel.qr', 'Stiefel.polar', 'Stiefel.choleskyL', 'Stiefel.euler', 'Stiefel.so-exp', 'Stiefel.euler+phase']})
     out = []
     for nm in names:
         w = next((v for k, v in bad.items() if k.split('[')[0] == nm), None)
+        w2 = next((v for k, v in other.items() if k.split('[')[0] == nm), None)
+        if w is None and w2 is not None:
+            out.append(ob(f'{PROP}.parameter_count.{nm}[d<=8,r<=d]', 'undecided', functions=[f'numqi.manifold:{nm.split(".")[0]}.__init__'], tier='P', backend='exact-eval (integer arithmetic, all d<=8, r<=d)',
+                          detail=f'number of parameters differs from manifold dimension + documented gauge but is not below the image dimension ({w2}): another parametrisation, the Jacobian jobs decide'))
+            continue
         out.append(ob(f'{PROP}.parameter_count.{nm}[d<=8,r<=d]', 'proved' if w is None else 'refuted', functions=[f'numqi.manifold:{nm.split(".")[0]}.__init__'], tier='P',
                       backend='exact-eval (integer arithmetic, all d<=8, r<=d)', witness=w, native=dict(confirmed=w is not None),
                       detail='' if w is None else 'number of parameters != manifold dimension + documented gauge'))
@@ -185,8 +192,12 @@ def _jac_rank(fn, n, want, rng, label, functions, softplus_k=0, tries=3):
     new_ctx()
     th, syms = alg.sym_real('t', (n,))
     extra = {(mi, '_np_softplus'): c01._softplus_stub}
-    with shimmed([mi, ms, gm], dom=ALG, extra=extra):
-        R = fn(th)
+    try:
+        with shimmed([mi, ms, gm], dom=ALG, extra=extra):
+            R = fn(th)
+    except Unsupported as ex:
+        # the chart goes through a routine the engine does not model (e.g. a LAPACK solve): no exact Jacobian here, the autograd Jacobian job decides
+        return ob(f'{PROP}.exact_jacobian_rank.{label}', 'undecided', functions=functions, tier='P', backend='sympy', detail=f'engine: {ex}')
     comps = []
     for e in SS.arr(R).ravel():
         e = _explicit_roots(e if isinstance(e, sp.Basic) else alg.exact(e))
